@@ -139,6 +139,16 @@ def euclid_vars(eng, n, d):
     return [floor_def(n, d, q, rem)], q, rem
 
 
+def poly_equal(a, b):
+    """syntactic polynomial identity (sum-of-monomials normal form); sound when it says True"""
+    if not isinstance(a, z3.ExprRef):
+        a = z3.IntVal(a)
+    if not isinstance(b, z3.ExprRef):
+        b = z3.IntVal(b)
+    d = z3.simplify(a - b, som=True, arith_lhs=True, hoist_mul=False)
+    return z3.is_int_value(d) and d.as_long() == 0
+
+
 def matched(entry, rid):
     return z3.And(entry.present, rid == entry.key)
 
@@ -523,13 +533,25 @@ def c09(sc, req, path):
             else:
                 yield refute('ask_fee_is_rate_times_gross_half_up', [m])
     # pro-rata clause of Inv_bid re-established on every bid that stays on the book
-    for e in path.world.maps['bid']:
+    from .models import struct_eq
+    for i, e in enumerate(path.world.maps['bid']):
         if e.fmt != 'BidOrderV3':
             continue
         b = bid_view(ti, e.val)
-        if b['hasfee']:
+        if not b['hasfee']:
+            continue
+        if i < len(sc.world.maps['bid']) and z3.is_true(z3.simplify(struct_eq(sc.world.maps['bid'][i].val, e.val))):
+            continue                      # untouched: the clause is part of the assumed Inv
+        n_or = b['fee'] * b['rem_q']
+        wit = None
+        for (n_c, d_c, r_c) in path.world.ties:
+            if poly_equal(d_c, b['quote']) and poly_equal(n_c, n_or):
+                wit = r_c                 # the path's own rounding of exactly this quotient (nearest unit by the model of rust_decimal)
+        if wit is not None:
+            good = z3.And(b['acc_f'] >= 0, b['acc_f'] <= b['fee'], b['rem_f'] == wit)
+        else:
             good = z3.And(b['acc_f'] >= 0, b['acc_f'] <= b['fee'], tol_nearest(b['fee'], b['rem_q'], b['quote'], b['rem_f']))
-            yield refute('fee_held_is_pro_rata_of_unspent_quote', [e.present, z3.Not(good)], kind=kind)
+        yield refute('fee_held_is_pro_rata_of_unspent_quote', [e.present, z3.Not(good)], kind=kind, witness=wit is not None)
     # a bid that leaves the book has had its whole fee paid out or returned (C01's "zero once closed"), checked in the ledger step (C01)
 
 
@@ -590,6 +612,9 @@ def c17(sc, req, path):
             yield refute('match_size_reported', [m, (szn != req['size']) if szn is not None else z3.BoolVal(True)])
             if pr is not None and z3.is_app(pr) and pr.decl().name() == 'decstr':
                 yield refute('match_price_reported_numerically', [m, pr.arg(0) * req['pd'] != req['pn'] * pr.arg(1)])
+            elif pr is not None and z3.is_app(pr) and pr.decl().name() == 'deccanon':
+                src = pr.arg(0)          # the canonical rendering of a parsed decimal text has that text's value
+                yield refute('match_price_reported_numerically', [m, z3.Not(z3.And(f_dec_ok(src), f_dec_n(src) * req['pd'] == req['pn'] * f_dec_d(src)))])
             else:
                 yield refute('match_price_reported_numerically', [m])
             afn = numstr_arg(af) if af is not None else None
@@ -1175,3 +1200,43 @@ def c16(sc, req, path):
 
 from .engine import Opaque
 PROPS.update({'C13': c13, 'C14': c14, 'C15': c15, 'C16': c16})
+
+
+# ---------------------------------------------------------------- Inv preservation (the induction step the history properties rest on)
+def inv_step(sc, req, path):
+    """every order on the book after an accepted request satisfies Inv again (DESIGN.md 5.1): the clauses C01 / C06 rely on"""
+    if path.kind != 'ok':
+        return
+    ti, kind = sc.ti, req['kind']
+    base_denom = sc.cfgf('base_denom')
+    from .models import struct_eq
+    for ns in ('ask', 'bid'):
+        for i, e in enumerate(path.world.maps[ns]):
+            if i < len(sc.world.maps[ns]) and z3.is_true(z3.simplify(struct_eq(sc.world.maps[ns][i].val, e.val))):
+                continue            # untouched value: Inv is the assumption
+            if ns == 'ask':
+                a = ask_view(ti, e.val)
+                good = inv_ask(sc, a)
+                if a['cls'] == 'Ready':
+                    good = z3.And(good, a['cb_amount'] == a['size'], a['cb_denom'] == base_denom)
+                yield refute('inv_ask_reestablished', [e.present, z3.Not(good)], kind=kind, cls=a['cls'])
+            elif e.fmt == 'BidOrderV3':
+                b = bid_view(ti, e.val)
+                good = z3.And(inv_bid(sc, b), b['acc_q'] <= b['quote'], b['acc_b'] < b['base'])
+                yield refute('inv_bid_reestablished', [e.present, z3.Not(good)], kind=kind, fee=b['hasfee'])
+    for ob in c09(sc, req, path):
+        if ob.name == 'fee_held_is_pro_rata_of_unspent_quote':
+            yield Obl('inv_bid_fee_clause_reestablished', ob.neg, **ob.info)
+
+
+def c01_full(sc, req, path):
+    yield from c01(sc, req, path)
+    yield from inv_step(sc, req, path)
+
+
+def c06_full(sc, req, path):
+    yield from c06(sc, req, path)
+    yield from inv_step(sc, req, path)
+
+
+PROPS.update({'C01': c01_full, 'C06': c06_full})
